@@ -191,21 +191,20 @@ def _toposort(wd, tier, seed, verdict, replay_cases, ev):
         if ev["binding"].get("toposort") is None and replay_cases is None:
             # binding self-test: damage the expectation of an acyclic case; it must be reported
             head = os.path.join(wd, "ts_selftest.jsonl")
-            k = None
             with open(head, "w") as hf:
                 for idx, line in enumerate(open(casefile)):
                     if idx >= 2000:
                         break
                     hf.write(line)
-                    if k is None and idx >= (seed * 131) % 1000 and '"cyclic":false' in line:
-                        k = idx
-            if k is None:
-                raise vf.MachineryError("no acyclic case for the binding self-test")
+            k = (seed * 131) % 1000
             counts = []
-            for extra_args in ([], ["-corrupt", str(k)]):
+            for extra_args in ([], ["-corrupt", str(k)], ["-corrupt", "0"]):
                 rc, o, err = vf.run_driver(binary, ["-seed", str(seed)] + extra_args, stdin_path=head, timeout=3000)
-                counts.append([json.loads(l) for l in o.splitlines() if '"stats"' in l][-1]["stats"]["class_counts"])
-            extra = {c: v for c, v in counts[1].items() if v != counts[0].get(c, 0)}
+                st = [json.loads(l) for l in o.splitlines() if '"stats"' in l][-1]["stats"]
+                counts.append(st["class_counts"])
+                if extra_args and st.get("corrupted_case", -1) >= 0:
+                    break          # the driver damaged the first agreeing (acyclic) case from k on
+            extra = {c: v for c, v in counts[-1].items() if v != counts[0].get(c, 0)} if len(counts) > 1 else {}
             ev["binding"]["toposort"] = bool(extra)
             # if the real code already disagrees beyond the known finding, an unreported corruption is not a harness fault
             if not extra and not verdict.violations:
@@ -298,19 +297,19 @@ def _trie(wd, tier, seed, verdict, replay_hists, ev):
                     hf.write(line)
             k0 = (seed * 7919) % min(200, cnt[0])
 
-            def _mism(extra_args):
+            def _st(extra_args):
                 rc, o, err = vf.run_driver(binary, ["-seed", str(seed)] + extra_args, stdin_path=head, timeout=3000)
-                return [json.loads(l) for l in o.splitlines() if '"stats"' in l][-1]["stats"]["mismatches"]
-            base_m = _mism([])
+                return [json.loads(l) for l in o.splitlines() if '"stats"' in l][-1]["stats"]
+            base_m = _st([])["mismatches"]
             ok = False
-            # a case that already disagrees cannot show one more disagreement: try the next ones
-            for k in range(k0, k0 + 10):
-                if _mism(["-corrupt", str(k % min(200, cnt[0]))]) > base_m:
-                    ok = True
+            for k in (k0, 0):      # the driver damages the first case from k on that agrees with the model
+                st = _st(["-corrupt", str(k)])
+                if st.get("corrupted_case", -1) >= 0:
+                    ok = st["mismatches"] > base_m
                     break
             ev["binding"]["trie"] = ok
             if not ok and not verdict.violations:
-                raise vf.MachineryError("binding self-test failed: corrupted trie expectation (case %d..) not reported" % k0)
+                raise vf.MachineryError("binding self-test failed: corrupted trie expectation (from case %d) not reported" % k0)
     # vacuity guard, only meaningful when the trie agreed everywhere: a replay stops at a case's first disagreement
     # (e.g. a panic in Insert), so a broken trie may never get far enough to grow -- that is a verdict, not exit 2
     if replay_hists is None and not ev["trie_mismatches"] and not ev["trie_final_index_width"].get("uint16"):
